@@ -12,8 +12,9 @@
 using namespace opensmt;
 #include <smt2newparser.hh>      // generated: token numbers, YYSTYPE, YYLTYPE  (-I <build>/src/parsers/smt2new)
 int osmt_yylex(YYSTYPE * lvalp, YYLTYPE * llocp, void * scanner);
-static sigjmp_buf jb;
-static void onsig(int) { siglongjmp(jb, 1); }
+static sigjmp_buf jb_outer, jb;
+static sigjmp_buf * current = &jb_outer;
+static void onsig(int) { siglongjmp(*current, 1); }
 
 struct Logics {
     ArithLogic lra{Logic_t::QF_LRA}, lia{Logic_t::QF_LIA}, lira{Logic_t::QF_LIRA};
@@ -21,6 +22,7 @@ struct Logics {
 
 static std::string mk(ArithLogic & logic, std::string const & s, bool & broken) {
     std::ostringstream o;
+    current = &jb;
     if (sigsetjmp(jb, 1) == 0) {
         try {
             PTRef t = logic.mkConst(s.c_str());
@@ -33,6 +35,7 @@ static std::string mk(ArithLogic & logic, std::string const & s, bool & broken) 
         catch (std::exception const & e) { o << "std:" << e.what(); }
         catch (...) { o << "other"; }
     } else { o << "CRASH"; broken = true; }
+    current = &jb_outer;
     return o.str();
 }
 
@@ -48,12 +51,21 @@ int main() {
         if (arg == "<empty>") arg = "";
         std::ostringstream o;
         if (++count % 50000 == 0) L = std::make_unique<Logics>();
+        current = &jb_outer;
+        if (sigsetjmp(jb_outer, 1) != 0) {       // a signal outside the guarded calls below: report, start afresh
+            std::cout << "CRASH-outside\n";
+            L.release();
+            L = std::make_unique<Logics>();
+            continue;
+        }
         if (cmd == "L") {
             o << "I" << isIntString(arg.c_str()) << " R" << isRealString(arg.c_str()) << " S:";
+            current = &jb;
             if (sigsetjmp(jb, 1) == 0) {
                 try { char * r; stringToRational(r, arg.c_str()); o << r; free(r); }
                 catch (strConvException const &) { o << "exc"; }
             } else o << "CRASH";
+            current = &jb_outer;
             bool broken = false;
             o << " | " << mk(L->lra, arg, broken);
             o << " | " << mk(L->lia, arg, broken);
